@@ -81,6 +81,8 @@ pub struct Outcome {
     pub max_stack: usize,
     pub mem_size: usize,
     pub opcodes_seen: [bool; 256],
+    /// a MemoryLimit failure was caused by an access beyond the 32-bit range
+    pub mem_fail_beyond_u32: bool,
 }
 
 // ---------------------------------------------------------------------------------------
@@ -337,6 +339,8 @@ struct Machine<'a> {
     mem: Vec<u8>,
     storage: BTreeMap<Word, Word>,
     transient: BTreeMap<Word, Word>,
+    /// set when a MemoryLimit failure concerned an access ending beyond u32::MAX (or not representable)
+    mem_fail_beyond_u32: std::cell::Cell<bool>,
 }
 
 impl<'a> Machine<'a> {
@@ -354,9 +358,24 @@ impl<'a> Machine<'a> {
         if size == 0 {
             return Ok(0);
         }
-        let o = off.to_usize().ok_or(FailKind::MemoryLimit)?;
-        let end = o.checked_add(size).ok_or(FailKind::MemoryLimit)?;
+        let o = match off.to_usize() {
+            Some(o) => o,
+            None => {
+                self.mem_fail_beyond_u32.set(true);
+                return Err(FailKind::MemoryLimit);
+            }
+        };
+        let end = match o.checked_add(size) {
+            Some(e) => e,
+            None => {
+                self.mem_fail_beyond_u32.set(true);
+                return Err(FailKind::MemoryLimit);
+            }
+        };
         if end > self.ctx.mem_limit {
+            if end > u32::MAX as usize || size > u32::MAX as usize || o > u32::MAX as usize {
+                self.mem_fail_beyond_u32.set(true);
+            }
             return Err(FailKind::MemoryLimit);
         }
         let words = end / 32 + usize::from(end % 32 != 0);
@@ -369,8 +388,14 @@ impl<'a> Machine<'a> {
 
     /// A size operand that does not fit in usize can never be within the memory limit
     /// (and is non-zero), so it is a MemoryLimit failure.
-    fn size_arg(size: &U256) -> Result<usize, FailKind> {
-        size.to_usize().ok_or(FailKind::MemoryLimit)
+    fn size_arg(&self, size: &U256) -> Result<usize, FailKind> {
+        match size.to_usize() {
+            Some(s) => Ok(s),
+            None => {
+                self.mem_fail_beyond_u32.set(true);
+                Err(FailKind::MemoryLimit)
+            }
+        }
     }
 
     fn jump_target(&self, dest: &U256) -> Result<usize, FailKind> {
@@ -547,7 +572,7 @@ impl<'a> Machine<'a> {
             }
             0x20 => {
                 let (off, size) = (self.pop(), self.pop());
-                let size = Self::size_arg(&size)?;
+                let size = self.size_arg(&size)?;
                 let o = self.touch(&off, size)?;
                 let h = keccak256(&self.mem[o..o + size]);
                 self.push(word_to_u256(&h));
@@ -560,7 +585,7 @@ impl<'a> Machine<'a> {
             0x36 => self.push(U256::from(self.ctx.calldata.len())),
             0x37 | 0x39 => {
                 let (dst, src, size) = (self.pop(), self.pop(), self.pop());
-                let size = Self::size_arg(&size)?;
+                let size = self.size_arg(&size)?;
                 let d = self.touch(&dst, size)?;
                 let source: &[u8] = if op == 0x37 { &ctx.calldata } else { code };
                 let data = copy_padded(source, &src, size);
@@ -616,7 +641,7 @@ impl<'a> Machine<'a> {
             0x5b => {}
             0x5e => {
                 let (dst, src, size) = (self.pop(), self.pop(), self.pop());
-                let size = Self::size_arg(&size)?;
+                let size = self.size_arg(&size)?;
                 if size != 0 {
                     let d = self.touch(&dst, size)?;
                     let s = self.touch(&src, size)?;
@@ -646,7 +671,7 @@ impl<'a> Machine<'a> {
             }
             0xf3 | 0xfd => {
                 let (off, size) = (self.pop(), self.pop());
-                let size = Self::size_arg(&size)?;
+                let size = self.size_arg(&size)?;
                 let o = self.touch(&off, size)?;
                 let data = self.mem[o..o + size].to_vec();
                 return Ok(Step::Halt(if op == 0xf3 { Halt::Return(data) } else { Halt::Revert(data) }));
@@ -667,6 +692,7 @@ pub fn run(ctx: &Ctx) -> Outcome {
         mem: Vec::new(),
         storage: ctx.storage.clone(),
         transient: ctx.transient.clone(),
+        mem_fail_beyond_u32: std::cell::Cell::new(false),
     };
     let mut steps: u64 = 0;
     let mut pcs: Vec<u32> = Vec::new();
@@ -732,6 +758,7 @@ pub fn run(ctx: &Ctx) -> Outcome {
         jumps,
         max_stack,
         mem_size: m.mem.len(),
+        mem_fail_beyond_u32: m.mem_fail_beyond_u32.get(),
         opcodes_seen: seen,
     }
 }
@@ -1318,6 +1345,7 @@ mod tests {
             mem: vec![],
             storage: BTreeMap::new(),
             transient: BTreeMap::new(),
+            mem_fail_beyond_u32: std::cell::Cell::new(false),
         };
         assert!(matches!(m.exec(ctx.code[pc], pc), Ok(Step::Next)));
         m.stack
